@@ -815,7 +815,7 @@ make_xen_pfn_map_auto(kdump_ctx_t *ctx, const struct section *sect)
 {
 	struct elfdump_priv *edp = ctx->shared->fmtdata;
 	kdump_pfn_t max_pfn = 0;
-	uint64_t pfn;
+	uint64_t pfn = 0;
 	struct pfn2idx_range range;
 	off_t pos, endpos;
 	struct fcache_entry fce;
@@ -860,7 +860,8 @@ make_xen_pfn_map_auto(kdump_ctx_t *ctx, const struct section *sect)
 	return status;
 
  err_pfn:
-	pfn = dump64toh(ctx, *(uint64_t*)fce.data);
+	/* pfn is the last entry parsed; fce.data may already point behind
+	 * the end of the table (failure in pfn2idx_map_end) */
 	set_error(ctx, status, "Cannot map %s 0x%"PRIx64" -> 0x%"PRIxFAST64,
 		  "PFN", pfn, range.idx);
 	fcache_put(&fce);
@@ -875,7 +876,7 @@ make_xen_pfn_map_nonauto(kdump_ctx_t *ctx, const struct section *sect)
 {
 	struct elfdump_priv *edp = ctx->shared->fmtdata;
 	kdump_pfn_t max_pfn = 0;
-	struct xen_p2m p2m;
+	struct xen_p2m p2m = { 0, 0 };
 	struct pfn2idx_range pfnrange, mfnrange;
 	off_t pos, endpos;
 	struct fcache_entry fce;
@@ -928,14 +929,14 @@ make_xen_pfn_map_nonauto(kdump_ctx_t *ctx, const struct section *sect)
 	return status;
 
  err_pfn:
-	p2m.pfn = dump64toh(ctx, ((struct xen_p2m*)fce.data)->pfn);
+	/* p2m is the last entry parsed; fce.data may already point behind
+	 * the end of the table (failure in pfn2idx_map_end) */
 	set_error(ctx, status, "Cannot map %s 0x%"PRIx64" -> 0x%"PRIxFAST64,
 		  "PFN", p2m.pfn, pfnrange.idx);
 	fcache_put(&fce);
 	return status;
 
 err_mfn:
-	p2m.gmfn = dump64toh(ctx, ((struct xen_p2m*)fce.data)->gmfn);
 	set_error(ctx, status, "Cannot map %s 0x%"PRIx64" -> 0x%"PRIxFAST64,
 			 "MFN", p2m.gmfn, mfnrange.idx);
 	fcache_put(&fce);
